@@ -2,7 +2,7 @@
 # tools/benigncheck.sh [tier]  - every check must stay silent (exit 0) on each property-preserving patch in benign/
 tier=${1:-quick}
 cd "$(dirname "$0")/.."
-for b in benign/*.diff; do
+for b in ${BENIGN_GLOB:-benign/*.diff benign/done/*.diff}; do
   for c in 01 02 03 04 05 06 07 08 09 10 11 12 13 14 15 16 17 18 19; do
     out=$(tools/withpatch.sh "$PWD/$b" -- ./check C$c $tier 2>&1); rc=$?
     echo "$(basename $b) C$c rc=$rc $(echo "$out" | tail -1)"
